@@ -7,27 +7,31 @@ import gtirb, capstone
 from gtirb_test_helpers import create_test_module, add_text_section, add_code_block, add_symbol, add_proxy_block
 from gtirb_rewriting.assembler import Assembler
 from vt import vocab
-ISA = {"x64": (gtirb.Module.ISA.X64, gtirb.Module.FileFormat.ELF), "ia32": (gtirb.Module.ISA.IA32, gtirb.Module.FileFormat.PE), "arm64": (gtirb.Module.ISA.ARM64, gtirb.Module.FileFormat.ELF)}
-CS = {"x64": (capstone.CS_ARCH_X86, capstone.CS_MODE_64), "ia32": (capstone.CS_ARCH_X86, capstone.CS_MODE_32), "arm64": (capstone.CS_ARCH_ARM64, capstone.CS_MODE_ARM)}
+ISA = {"x64": (gtirb.Module.ISA.X64, gtirb.Module.FileFormat.ELF), "ia32": (gtirb.Module.ISA.IA32, gtirb.Module.FileFormat.PE), "arm64": (gtirb.Module.ISA.ARM64, gtirb.Module.FileFormat.ELF), "mips32": (gtirb.Module.ISA.MIPS32, gtirb.Module.FileFormat.ELF)}
+CS = {"x64": (capstone.CS_ARCH_X86, capstone.CS_MODE_64), "ia32": (capstone.CS_ARCH_X86, capstone.CS_MODE_32), "arm64": (capstone.CS_ARCH_ARM64, capstone.CS_MODE_ARM), "mips32": (capstone.CS_ARCH_MIPS, capstone.CS_MODE_MIPS32 | capstone.CS_MODE_BIG_ENDIAN)}
 bad = 0
 for isa, (gisa, fmt) in ISA.items():
-    ir, m = create_test_module(fmt, gisa)
+    ir, m = create_test_module(fmt, gisa, byte_order=gtirb.Module.ByteOrder.Big if isa == "mips32" else None)
     _, bi = add_text_section(m, 0x1000)
     b = add_code_block(bi, vocab.NOP[isa])
     add_symbol(m, "tgt", b)
     md = capstone.Cs(*CS[isa]); md.detail = True
     for key, e in vocab.VOCAB[isa].items():
-        imm = 0x1234 if (e["imm"] or e["imm16"]) else None
+        imm = 0x1234 if (e["imm"] or e["imm16"] or e["imm16lo"]) else None
         exp = vocab.encode(isa, key, imm)
         insns = list(md.disasm(exp, 0x1000))
-        if len(insns) != 1 or insns[0].size != len(exp):
+        if isa == "mips32" and len(exp) == 8:
+            insns = insns[:1]; exp_cs = exp[:4]
+        else:
+            exp_cs = exp
+        if len(insns) != 1 or insns[0].size != len(exp_cs):
             print("CAPSTONE", isa, key, exp.hex(), [(i.mnemonic, i.op_str) for i in insns]); bad += 1
         else:
             i = insns[0]
             g = {"jmp": capstone.CS_GRP_JUMP, "jcc": capstone.CS_GRP_JUMP, "ijmp": capstone.CS_GRP_JUMP, "call": capstone.CS_GRP_CALL, "icall": capstone.CS_GRP_CALL, "ret": capstone.CS_GRP_RET}.get(e["kind"])
             groups = set(i.groups)
             flow = {capstone.CS_GRP_JUMP, capstone.CS_GRP_CALL, capstone.CS_GRP_RET} & groups
-            if (g is None and flow) or (g is not None and g not in groups):
+            if isa != "mips32" and ((g is None and flow) or (g is not None and g not in groups)):
                 print("GROUPS", isa, key, i.mnemonic, i.op_str, groups); bad += 1
         if not e["patch"]:
             continue
@@ -37,6 +41,13 @@ for isa, (gisa, fmt) in ISA.items():
         got = r.text_section.data
         if got != exp:
             print("ASM", isa, key, vocab.asm_text(isa, key, "tgt", imm), got.hex(), "expected", exp.hex()); bad += 1
+        if "intel" in e:
+            from gtirb_rewriting.assembly import X86Syntax
+            a = Assembler(m)
+            a.assemble(vocab.asm_text(isa, key, "tgt", imm, intel=True), X86Syntax.INTEL)
+            got2 = a.finalize().text_section.data
+            if got2 != exp:
+                print("INTEL", isa, key, got2.hex(), exp.hex()); bad += 1
         if e["sym"]:
             offs = {o: (x.symbol.name, r.text_section.symbolic_expression_sizes[o]) for o, x in r.text_section.symbolic_expressions.items()}
             if list(offs) != [e["sym"][0]]:
